@@ -101,6 +101,8 @@ Definition f32_2s (o:fop2) (a b:b32) : b32 :=
   | FAnd => ofb32 (Z.land (bits_of_b32 a) (bits_of_b32 b)) | FOr => ofb32 (Z.lor (bits_of_b32 a) (bits_of_b32 b)) | FXor => ofb32 (Z.lxor (bits_of_b32 a) (bits_of_b32 b))
   | FAndNot => ofb32 (Z.land (Z.lxor (bits_of_b32 a) 4294967295) (bits_of_b32 b))
   | FMinSse => if lt32 a b then a else b | FMaxSse => if lt32 b a then a else b
+  | FMinStd => if is_nan 24 128 a then b else if is_nan 24 128 b then a else if lt32 b a then b else a
+  | FMaxStd => if is_nan 24 128 a then b else if is_nan 24 128 b then a else if lt32 a b then b else a
   | FDivEuclid => let q := rint32 mode_ZR (b32_div mode_NE a b) in
       if lt32 (fmod32 a b) (ofb32 0) then (if lt32 (ofb32 0) b then b32_minus mode_NE q one32 else b32_plus mode_NE q one32) else q
   | FRemEuclid => let r := fmod32 a b in if lt32 r (ofb32 0) then b32_plus mode_NE r (ofb32 (Z.land (bits_of_b32 b) 2147483647)) else r
@@ -142,6 +144,8 @@ Definition f64_2s (o:fop2) (a b:b64) : b64 :=
       if lt64 (fmod64 a b) (ofb64 0) then (if lt64 (ofb64 0) b then b64_minus mode_NE q one64 else b64_plus mode_NE q one64) else q
   | FRemEuclid => let r := fmod64 a b in if lt64 r (ofb64 0) then b64_plus mode_NE r (ofb64 (Z.land (bits_of_b64 b) 9223372036854775807)) else r
   | FMinSse => if lt64 a b then a else b | FMaxSse => if lt64 b a then a else b
+  | FMinStd => if is_nan 53 1024 a then b else if is_nan 53 1024 b then a else if lt64 b a then b else a
+  | FMaxStd => if is_nan 53 1024 a then b else if is_nan 53 1024 b then a else if lt64 a b then b else a
   | o => ofb64 (oracle2 o (bits_of_b64 a) (bits_of_b64 b)) end.
 Definition f64_to_int_s (k:ik) (x:b64) : Z :=
   match x with B754_nan _ _ _ _ _ => 0 | B754_infinity _ _ s => if s then imin k else imax k | _ => sat k (Btrunc 53 1024 x) end.
@@ -188,6 +192,15 @@ Lemma IntStd_withZ O chk : IntStd (withZ O chk) chk.
 Proof. repeat split. Qed.
 Lemma IntStd_IEEE chk o1 o2 : IntStd (IEEE chk o1 o2) chk.
 Proof. repeat split. Qed.
+(* [LitStd O]: the order of the literal bounds glam passes to std `clamp` (-1 <= 1 and 0 <= 1) holds in [O]; true of IEEE *)
+Definition LitStd (O:Ops) : Prop :=
+  f32_cmp O FLe (f32_of_bits O 3212836864) (f32_of_bits O 1065353216) = true /\ f64_cmp O FLe (f64_of_bits O 13830554455654793216) (f64_of_bits O 4607182418800017408) = true /\
+  f32_cmp O FLe (f32_of_bits O 0) (f32_of_bits O 1065353216) = true /\ f64_cmp O FLe (f64_of_bits O 0) (f64_of_bits O 4607182418800017408) = true.
+Lemma LitStd_IEEE chk o1 o2 : LitStd (IEEE chk o1 o2).
+Proof. repeat split; vm_compute; reflexivity. Qed.
+Ltac litstd_eqs H := cbv [LitStd f32_cmp f64_cmp f32_of_bits f64_of_bits] in H; destruct H as (? & ? & ? & ?).
+Ltac use_lits := repeat match goal with E : _ = true |- _ => rewrite E end.
+
 (* split the hypothesis into its eleven equations (the abstract primitives stay variables until [unlock_ints]) *)
 Ltac intstd_eqs H :=
   cbv [IntStd i_1 i_2 i_checked i_cmp i_cast i_shl i_shr i_mixed i_mixed_checked i_isneg i_try] in H;
